@@ -1,5 +1,7 @@
 import Driver.Util
 import MpcVerif.Model.Garble
+import MpcVerif.Model.GarbleHist
+import MpcVerif.Proofs.PoolGarble   -- core-only; holds the definitions GMem / GJob / garbleParams (C17)
 
 namespace Drv.C01
 open Mpc Drv
@@ -32,6 +34,114 @@ def handle (args : List String) : String :=
     | _, _, _ => "bad-op"
   | _ => "bad-op"
 
+/-! ### Garbling histories on one circuit value (`Model/GarbleHist.lean`)
+
+`c01h <nw> <nin> <nout> <gates> <ev,ev,...>` with
+`G:<key>:<tape>` a Garble call (fails when the key is refused or the tape runs
+short: before `R`, or inside input label `k`), `E:<h>:<bits>` evaluation of live
+garbling number `h` (numbered by successful Garble calls), `R:<h>` Release.
+Every call is run as its block of atomic steps of the ownership model
+instantiated with the real writes of Garble (`garbleParams c`); what a handle
+shows is read from the memory of the scratch it owns.  Results joined by `|`. -/
+
+abbrev HState := Pool.State (Pool.GMem (BitVec 128)) (Pool.GJob (BitVec 128))
+
+def hexOrEmpty (s : String) : Option ByteArray :=
+  if s == "-" then some ByteArray.empty else Aes.bytesOfHex s
+
+def dummyJob : Pool.GJob (BitVec 128) :=
+  { H := hashOf id, r := 0#128, inl := fun _ => 0#128 }
+
+/-- What live handle `h` shows: `R`, the defined wire pairs, the tables. -/
+def viewOf (c : Circuit) (σ : HState) (h : Nat) : Option (Pool.GJob (BitVec 128) × Garbled (BitVec 128)) :=
+  match σ.handle h with
+  | some H =>
+    match H.pool, H.scratch with
+    | some _, some x =>
+      let m := σ.mem x
+      some (H.job, { r := H.job.r, wires := m.wires, rows := (List.range c.gates.length).map m.tables })
+    | _, _ => none
+  | none => none
+
+def viewStr (c : Circuit) (G : Garbled (BitVec 128)) : String :=
+  let ws := (List.range c.numWires).filter c.defined
+  let wstr := String.join (ws.map fun w => hex128 (G.wires.get w).l0 ++ hex128 (G.wires.get w).l1)
+  let gstr := ",".intercalate (G.rows.map fun row => String.join (row.map hex128))
+  s!"r={hex128 G.r};w={wstr};g={gstr}"
+
+def histEvent (c : Circuit) (σ : HState) (ev : String) : HState × String :=
+  let P := Pool.garbleParams (L := BitVec 128) c
+  match ev.splitOn ":" with
+  | ["G", key, tape] =>
+    match hexOrEmpty key, hexOrEmpty tape with
+    | some key, some tape =>
+      let s := Pool.pickFree σ
+      -- failure point: before R / key refused / inside input label k
+      let (job, failAt) : Pool.GJob (BitVec 128) × Option Nat :=
+        if tape.size < 16 then (dummyJob, some 0) else
+        let r := setS (label128 tape 0)
+        match Aes.Cipher.new key with
+        | none => ({ dummyJob with r := r }, some 0)
+        | some ciph =>
+          let job : Pool.GJob (BitVec 128) :=
+            { H := aesHash ciph, r := r, inl := fun i => label128 tape (16 * (i + 1)) }
+          let avail := (tape.size - 16) / 16
+          if avail < c.nIn then (job, some avail) else (job, none)
+      match failAt with
+      | some k =>
+        match Pool.runEv P σ (.fail job k s) with
+        | some σ' => (σ', "garble-error")
+        | none => (σ, "model-reject")
+      | none =>
+        match Pool.runEv P σ (.garble job s) with
+        | some σ' =>
+          match viewOf c σ' (σ'.nHandles - 1) with
+          | some (_, G) => (σ', viewStr c G)
+          | none => (σ', "model-reject")
+        | none => (σ, "model-reject")
+    | _, _ => (σ, "bad-op")
+  | ["E", h, x] =>
+    match h.toNat? with
+    | some h =>
+      if !Pool.liveHandle σ h then (σ, "no-handle") else
+      match Pool.runEv P σ (.eval h), viewOf c σ h with
+      | some σ', some (job, G) =>
+        let x := parseBits x
+        let head := viewStr c G
+        let ws := (List.range c.numWires).filter c.defined
+        match c.evalGarbled job.H G.rows (encodeInputs c G x) with
+        | .error _ => (σ', head ++ ";eval-error")
+        | .ok out =>
+          let estr := String.join (ws.map fun w => hex128 (out.get w))
+          (σ', head ++ s!";e={estr};c={bitsStr (c.compute x)}")
+      | _, _ => (σ, "model-reject")
+    | none => (σ, "bad-op")
+  | ["R", h] =>
+    match h.toNat? with
+    | some h =>
+      if h ≥ σ.nHandles then (σ, "no-handle") else
+      let live := Pool.liveHandle σ h
+      match Pool.runEv P σ (.release h) with
+      | some σ' => (σ', if live then "released" else "noop")
+      | none => (σ, "model-reject")
+    | none => (σ, "bad-op")
+  | _ => (σ, "bad-op")
+
+def handleHist (nw nin nout gates evs : String) : String :=
+  match parseCircuit nw nin nout gates with
+  | some c =>
+    let σ0 : HState := Pool.init (Pool.garbleParams c)
+    let (_, outs) := (evs.splitOn ",").foldl (fun (acc : HState × List String) ev =>
+      let (σ', r) := histEvent c acc.1 ev
+      (σ', r :: acc.2)) (σ0, [])
+    "|".intercalate outs.reverse
+  | none => "bad-op"
+
+def handleAll (args : List String) : String :=
+  match args with
+  | [nw, nin, nout, gates, evs] => handleHist nw nin nout gates evs
+  | _ => handle args
+
 end Drv.C01
 
-def main : IO Unit := Drv.mainLoop Drv.C01.handle
+def main : IO Unit := Drv.mainLoop Drv.C01.handleAll
